@@ -14,6 +14,11 @@
 //                      first moves that do so
 //   L fen | n          "D": least D in 0..n such that the side to move is checkmated within D
 //                      opponent moves against every defence (-1 = not within n)
+//   D fen | a b ply depth   directed node search: a fresh Search object on that position runs
+//                      negaScout(a, b, ply, depth) (shared transposition table, full strength) and
+//                      the returned score is printed; with hook H3 and TEXEL_VERIF_TRACE set the
+//                      nodes are traced like in the engine
+//   T                  clear the transposition table
 //   R dtm ply hmc      tbprobe.cpp rule50Margin: "margin evalScoreAfter"   (C13)
 //   X eval dist        Evaluate::swindleScore(eval, dist)                  (C13)
 #include <vector>
@@ -90,7 +95,7 @@ struct CaptureListener : public Search::Listener {
 
 int main() {
     std::vector<U64> nullHist(SearchConst::MAX_SEARCH_DEPTH * 2);
-    TranspositionTable tt(1024);
+    TranspositionTable tt(1 << 16);
     Notifier notifier;
     ThreadCommunicator comm(nullptr, tt, notifier, false);
     KillerTable kt;
@@ -190,6 +195,28 @@ int main() {
             } catch (const std::exception& e) {
                 std::cout << "ERR " << e.what() << '\n';
             }
+        } else if (k == "D") {
+            std::string rest; std::getline(is, rest);
+            rest.erase(0, rest.find_first_not_of(' '));
+            size_t bar = rest.find('|');
+            try {
+                Position pos = TextIO::readFEN(rest.substr(0, bar));
+                std::istringstream ps(rest.substr(bar + 1));
+                int a, b, ply, depth; ps >> a >> b >> ply >> depth;
+                if (!et) et = Evaluate::getEvalHashTables();
+                Search::SearchTables st(comm.getCTT(), kt, ht, *et);
+                std::vector<U64> hist(SearchConst::MAX_SEARCH_DEPTH * 4 + 16);
+                Search s2(pos, hist, 0, st, comm, treeLog);
+                s2.initSearchTreeInfo();
+                s2.setMinProbeDepth(SearchConst::MAX_SEARCH_DEPTH);   // as iterativeDeepening does without tablebases
+                int score = s2.negaScout(true, a, b, ply, depth, Square(-1), MoveGen::inCheck(pos));
+                std::cout << score << '\n';
+            } catch (const std::exception& e) {
+                std::cout << "ERR " << e.what() << '\n';
+            }
+        } else if (k == "T") {
+            tt.clear();
+            std::cout << "ok\n";
         } else if (k == "R") {
             int dtm, ply, hmc; is >> dtm >> ply >> hmc;
             int ev = 0;
